@@ -116,3 +116,19 @@ prop("C11", coq_deps=AUTHZ_DEPS + ["DatalogProofs.v", "ChanLTS.v", "ChanLTSProof
                                "Go scheduler, context timers and goroutine reclamation are outside the model (runtime remainder)"],
      assumptions=["no program of this Datalog dialect diverges (heads only take body-bound variables): limits cut large finite models"],
      harness_timeout=900)
+
+WIRE_DEPS = ["Base.v", "Term.v", "Expr.v", "Datalog.v", "Authz.v", "DTerm.v", "Symbols.v", "Chain.v", "Wire.v", "Token.v", "History.v",
+             "Corr.v", "WireProofs.v", "ChainProofs.v", "ExprProofs.v", "AuthzProofs.v", "PipelineProofs.v", "Generated.v"]
+prop("C10", coq_deps=WIRE_DEPS,
+     theorems=["C10_unmarshal_total", "C10_unmarshal_with_base_total", "C10_block_decode_total", "C10_policies_decode_total",
+               "C10_verify_total", "C10_accepted_sizes", "C10_append_total", "C10_seal_total", "C10_expressions_total",
+               "C10_blocks_phase_total", "C10_authorize_total"],
+     level_text="PARTIAL proof: every modelled stage (wire decoding incl. protobuf-go's required-field fast path, conversion, size gates, "
+                "symbol check, signature verification, append, seal, expression evaluation, authorization) is a total function whose explicit "
+                "Panic outcome is proved unreachable for every byte string; the crash-freedom of protobuf-go, regexp, fmt and time themselves "
+                "is exercised (worker-process streams), not proved",
+     trusted=["Model/Wire.v is a hand-written model of protobuf-go's proto2 decoding (validated against the library on ~8000 inputs by its "
+              "author agent and on every run by the pipeline correspondence)",
+              "ed25519 as Section variables; Go's regexp/fmt/time not modelled",
+              "printing (String/Code) totality is stated in C15"],
+     assumptions=["root key is 32 bytes (property text)"])
